@@ -16,14 +16,15 @@ HARNESSES[name] = dict(
 # loops that get a bound of their own in every harness
 DEFAULT_LOOPS = [
     (r"verif_kani::model::mix", 260),       # UF table scan (table mode): trip count is concrete, cap = UF_CAP + margin
-    (r"verif_kani::vk::any_bytes", 200),    # filling a symbolic buffer (concrete trip count N <= 181)
+    (r"verif_kani::vk::any_bytes", 200),
+    (r"vk::elementwise_copy", 200),         # stub of <[u8]>::copy_from_slice (concrete trip counts <= 117)    # filling a symbolic buffer (concrete trip count N <= 181)
 ]
 
 COMMON_ASSUMPTIONS = [
     "bounded model checking: every claim is for the stated input sizes and loop bounds only; unwinding assertions are on, so a too-small bound is reported, not silently truncated",
     "model ciphersuite M (harness/common/model.rs): hash = Merkle-Damgard over an uninterpreted 3x64->64 bit compression function (16-byte block, 8-byte digest) through the real digest::CoreWrapper; OPRF group Z_251 (1-byte elements/scalars); KE group Z_241 (2-byte public keys 0x5a||v, 1-byte secret keys); the real generic code of opaque-ke, voprf, hmac, hkdf is what is executed",
     "model groups never hash to the identity / zero scalar (the negligible real-world event is excluded by construction)",
-    "zeroize::optimization_barrier (inline asm) is stubbed by a no-op",
+    "zeroize::optimization_barrier (inline asm) is stubbed by a no-op; <[u8]>::copy_from_slice is stubbed by an element-wise loop (CBMC 6.11 memcpy defect on generic-array layouts, see DESIGN.md); the engine self-test harness guards the copy patterns used",
     "Kani 0.68 / CBMC 6.11 / CaDiCaL and rustc's MIR are trusted; counterexamples are replayed natively before being reported",
 ]
 
@@ -44,6 +45,11 @@ H("lemma_hmac_eq", "h_lemmas::lemma_hmac_eq", "RFC 2104 reference HMAC == hmac c
   "key 8 bytes, messages 0,8,9,24 bytes in two parts", covers=["reached"], lemma=True)
 H("lemma_hkdf_eq", "h_lemmas::lemma_hkdf_eq", "RFC 5869 reference Extract/Expand == hkdf crate over MHash",
   "prk 8, info 12 (two parts), 20 output bytes", covers=["reached"], lemma=True)
+
+H("lemma_hkdf_pad42", "h_lemmas::lemma_hkdf_pad42", "RFC 5869 Expand == hkdf crate for the 42-byte credential-response pad",
+  "prk 8, info 32+21 bytes, 42 output bytes (6 blocks)", covers=["reached"], lemma=True)
+
+H("engine_selftest_ga_copy", "h_lemmas::engine_selftest_ga_copy", "engine self-test: partial copies into GenericArray<u8,N> land where they should (guards against the CBMC memcpy defect described in DESIGN.md)", "20 (size, offset, length) combinations incl. the two that fail with CBMC's library memcpy", covers=["reached"], lemma=True)
 
 # ---- S1
 H("c03_server_finish_exact", "h_c03::c03_server_finish_exact",
@@ -121,6 +127,37 @@ H("s5_server_setup_new", "h_steps::s5_server_setup_new",
 H("s13_dummy_record", "h_steps::s13_dummy_record",
   "fake record for unregistered users: fresh 8-byte masking key from the RNG, all-zero envelope, setup's fake public key",
   "every decodable setup, tape symbolic", covers=["reached"])
+
+# ---- S8 / S9 units
+SLICE_LOOPS = [(r"chain_iter|update_iter", 8), (r"Chain<|Flatten|FlattenCompat", 8)]
+H("s8_mask_response", "verif_kani_opaque::s8_mask_response", "mask_response == Expand(masking_key, nonce||'CredentialResponsePad', 42) XOR (server_pk || envelope)",
+  "every masking key, nonce, valid public key, envelope", covers=["reached"], loops=SLICE_LOOPS, timeout=1800)
+H("s8_unmask_response", "verif_kani_opaque::s8_unmask_response", "unmask_response: Ok <=> unmasked public key valid; outputs are the unmasked bytes",
+  "every masking key, nonce, 42-byte masked response", covers=["ok", "rejected"], loops=SLICE_LOOPS, timeout=2400, mem_gb=24)
+for n, d in (("default_ids", "both identities absent"), ("explicit_ids", "client id 2 bytes, server id 1 byte"), ("mixed_ids", "one absent, one empty")):
+    H("s9_seal_" + n, "verif_kani_envelope::s9_seal_" + n,
+      "Envelope::seal == RFC 9807 Store: nonce from RNG, client key = DeriveDHKeyPair(Expand(rpwd, nonce||'PrivateKey')), export key, auth_tag over nonce||server_pk||len||id_s||len||id_u",
+      d + "; randomized_pwd, server key, identities, tape symbolic", covers=["reached"], loops=SLICE_LOOPS + KEYLOOPS, timeout=2400, mem_gb=24)
+    H("s9_open_" + n, "verif_kani_envelope::s9_open_" + n,
+      "Envelope::open: Ok <=> tag == MAC(...) ; recovers the same client key pair and export key; hands on effective identities; else SealOpenHmacError",
+      d + "; randomized_pwd, server key, identities, 40-byte envelope symbolic", covers=["opened", "rejected"], loops=SLICE_LOOPS + KEYLOOPS, timeout=2400, mem_gb=24)
+
+# ---- S10 / S11 (tripledh.rs)
+H("s11_derive_3dh_keys", "verif_kani_tripledh::s11_derive_3dh_keys",
+  "derive_3dh_keys == RFC 9807 DeriveKeys: Extract(dh1||dh2||dh3), Expand-Label HandshakeSecret/SessionKey with Hash(preamble), ServerMAC/ClientMAC",
+  "every three key pairs and transcript hash", covers=["reached"], timeout=1800, mem_gb=16)
+H("s11_derive_3dh_keys_external", "verif_kani_tripledh::s11_derive_3dh_keys_external",
+  "same through the external-key interface: exactly one diffie_hellman call, failure => the key's own Custom error",
+  "failure at call 0(never)/1/2", covers=["ok", "external key failure"], timeout=1800, mem_gb=16)
+for n, d in (("ctx0_default_ids", "empty context, default identities"), ("ctx2_explicit_idu", "2-byte context, explicit 1-byte client identity")):
+    H("s10_generate_ke2_" + n, "verif_kani_tripledh::s10_generate_ke2_" + n,
+      "TripleDh::generate_ke2 == RFC 9807 AuthServerRespond: fresh nonce/ephemeral key from the RNG, preamble over context, identities, request, response, nonce, key share; server MAC; pending state (Km3, Hash(preamble||mac), session key)",
+      d + "; request, response, keys, tape symbolic", covers=["reached"], loops=SLICE_LOOPS + KEYLOOPS, timeout=3600, mem_gb=30)
+    H("s10_generate_ke3_" + n, "verif_kani_tripledh::s10_generate_ke3_" + n,
+      "TripleDh::generate_ke3 == RFC 9807 AuthClientFinalize: Ok <=> received MAC == MAC(Km2, Hash(preamble)); session key; client MAC over Hash(preamble||server_mac); else InvalidLoginError",
+      d + "; request, response, KE2 message, client state, keys symbolic", covers=["accept", "reject"], loops=SLICE_LOOPS + KEYLOOPS, timeout=3600, mem_gb=30)
+H("s10_expand_label_limits", "verif_kani_tripledh::s10_expand_label_limits", "hkdf_expand_label == RFC Expand-Label; 256-byte context refused",
+  "context 8 symbolic bytes / 256 bytes", covers=["ok", "256 refused"])
 
 PROPERTIES["C03"] = dict(
     quick=["c03_server_finish_exact", "d_cred_fin", "d_server_login"],
